@@ -140,48 +140,61 @@ def run(ctx):
                 ctx.check(bool(good), "K3.contribution", "cat: a %s operand contributes %s (%s)" % (v, "its payload" if v == "String" else "its string form", cfg),
                           "in cat a %s operand contributes %s instead of %s" % (v, what, "itself" if v == "String" else "the shared string form of that operand"), where=hb.where(), fn=hb.key, nontrivial=True,
                           sample={"kind": v, "contributes": what})
-        # ---------------- the string form
-        want_const = {"Null": "null", "Object": "[object Object]"}
-        for v in facts.variants(VALUE):
-            restrict = P.specialise_unit(roles, ts.key, lambda e, a, _v=v: _v if (a == VALUE and e == ("arg", 1)) else None)
-            blocks = restrict[ts.key]
-            with ts.restricted(blocks):
-                r = strip_refs(ts.trace(0))
-            key = "string form of %s (%s)" % (v, cfg)
-            if v in want_const:
-                got = None
-                if r[0] == "call" and r[1] and r[1]["path"] in ("<std::string::String as std::convert::From<&str>>::from", "<str as std::string::ToString>::to_string", "<&str as std::string::ToString>::to_string", "std::borrow::ToOwned::to_owned", "<str as std::borrow::ToOwned>::to_owned"):
-                    a = strip_refs(r[2][0])
-                    got = const_value(a[1]) if a[0] == "const" else None
-                ctx.check(got == want_const[v], "K4.string-form", key, "the string form of %s is %r; expected %r" % (v, got if got is not None else show_expr(r)[:60], want_const[v]), where=ts.where(), fn=ts.key, nontrivial=True, sample={"kind": v, "form": got})
-            elif v in ("Bool", "Number", "String"):
-                good = r[0] == "call" and r[1] and expr_mentions(r, lambda x: x[0] == "downcast" and x[2] == v and strip_refs(x[1]) == ("arg", 1))
-                p = (r[1].get("full") or r[1]["path"]) if r[0] == "call" and r[1] else ""
-                good = good and ((v == "Bool" and "bool" in p and p.endswith("to_string")) or (v == "Number" and "serde_json::Number" in p and p.endswith("to_string")) or (v == "String" and re.search(r"String as std::(convert::From<&std::string::String>|clone::Clone)>::(from|clone)$", p) is not None))
-                ctx.check(bool(good), "K4.string-form", key, "the string form of %s is %s" % (v, show_expr(r)[:100]), where=ts.where(), fn=ts.key, nontrivial=True, sample={"kind": v, "form": p})
-            else:  # Array
-                good = r[0] == "call" and r[1] and r[1]["path"].endswith("::join")
-                sep = None
-                elem_clos = None
-                if good:
-                    s_ = strip_refs(r[2][1])
-                    sep = const_value(s_[1]) if s_[0] == "const" else None
-                    src = r[2][0]
-                    from_payload = expr_mentions(src, lambda x: x[0] == "downcast" and x[2] == "Array" and strip_refs(x[1]) == ("arg", 1))
-                    clos = []
-                    expr_mentions(src, lambda x: clos.append(x[1]["closure"]) if (x[0] == "agg" and x[1].get("agg") == "Closure") else False)
-                    good = from_payload and len(clos) == 1
-                    elem_clos = facts.body(clos[0]) if good else None
-                ctx.check(bool(good) and sep == ",", "K4.array-join", key, "the string form of an array is %s (separator %r)" % (show_expr(r)[:80], sep), where=ts.where(), fn=ts.key, nontrivial=True, sample={"separator": sep})
-                if elem_clos is not None:
-                    for ev in facts.variants(VALUE):
-                        bl, dec = elem_clos.specialize(lambda e, a, _v=ev: _v if (a == VALUE and e == ("arg", 2)) else None)
-                        with elem_clos.restricted(bl):
-                            rr = strip_refs(elem_clos.trace(0))
-                        if ev == "Null":
-                            a = strip_refs(rr[2][0]) if rr[0] == "call" and rr[2] else None
-                            got = const_value(a[1]) if a is not None and a[0] == "const" else ("" if rr[0] == "call" and rr[1] and rr[1]["path"] == "std::string::String::new" else None)
-                            ctx.check(got == "", "K4.array-element", "a null element contributes \"\" (%s)" % cfg, "a null array element contributes %r" % (got if got is not None else show_expr(rr)[:60]), where=elem_clos.where(), fn=elem_clos.key, nontrivial=True)
-                        else:
-                            good = rr[0] == "call" and rr[1] and rr[1].get("key") == ts.key and strip_refs(rr[2][0]) == ("arg", 2)
-                            ctx.check(good, "K4.array-element", "a %s element contributes its own string form (%s)" % (ev, cfg), "a %s element contributes %s" % (ev, show_expr(rr)[:80]), where=elem_clos.where(), fn=elem_clos.key, nontrivial=True)
+        string_form_clauses(ctx, facts, roles, ts, cfg, "K4")
+
+
+def string_form_clauses(ctx, facts, roles, ts, cfg, K="K4"):
+    """Per-kind structure of the shared string form (used by C16 K4, C07 K5, C09 K5)."""
+    want_const = {"Null": "null", "Object": "[object Object]"}
+    for v in facts.variants(VALUE):
+        restrict = P.specialise_unit(roles, ts.key, lambda e, a, _v=v: _v if (a == VALUE and e == ("arg", 1)) else None)
+        blocks = restrict[ts.key]
+        with ts.restricted(blocks):
+            r = strip_refs(ts.trace(0))
+        key = "string form of %s (%s)" % (v, cfg)
+        if v in want_const:
+            got = None
+            if r[0] == "call" and r[1] and r[1]["path"] in ("<std::string::String as std::convert::From<&str>>::from", "<str as std::string::ToString>::to_string", "<&str as std::string::ToString>::to_string", "std::borrow::ToOwned::to_owned", "<str as std::borrow::ToOwned>::to_owned"):
+                a = strip_refs(r[2][0])
+                got = const_value(a[1]) if a[0] == "const" else None
+            ctx.check(got == want_const[v], K + ".string-form", key, "the string form of %s is %r; expected %r" % (v, got if got is not None else show_expr(r)[:60], want_const[v]), where=ts.where(), fn=ts.key, nontrivial=True, sample={"kind": v, "form": got})
+        elif v in ("Bool", "Number", "String"):
+            good = r[0] == "call" and r[1] and expr_mentions(r, lambda x: x[0] == "downcast" and x[2] == v and strip_refs(x[1]) == ("arg", 1))
+            p = (r[1].get("full") or r[1]["path"]) if r[0] == "call" and r[1] else ""
+            good = good and ((v == "Bool" and "bool" in p and p.endswith("to_string")) or (v == "Number" and "serde_json::Number" in p and p.endswith("to_string")) or (v == "String" and re.search(r"String as std::(convert::From<&std::string::String>|clone::Clone)>::(from|clone)$", p) is not None))
+            ctx.check(bool(good), K + ".string-form", key, "the string form of %s is %s" % (v, show_expr(r)[:100]), where=ts.where(), fn=ts.key, nontrivial=True, sample={"kind": v, "form": p})
+        else:  # Array
+            good = r[0] == "call" and r[1] and r[1]["path"].endswith("::join")
+            sep = None
+            elem_clos = None
+            if good:
+                s_ = strip_refs(r[2][1])
+                sep = const_value(s_[1]) if s_[0] == "const" else None
+                src = r[2][0]
+                # exactly collect(map(iter(payload), closure)) — every element keeps its slot
+                x = strip_refs(src)
+                chain = []
+                clos = []
+                while x[0] == "call" and x[1] and re.search(r"(Iterator::|Iterator>::)(collect|map)$|::iter$|Deref>::deref$|IntoIterator>::into_iter$", x[1]["path"]):
+                    chain.append(x[1]["path"].rsplit("::", 1)[1])
+                    if x[1]["path"].endswith("::map") and len(x[2]) > 1:
+                        c_ = strip_refs(x[2][1])
+                        if c_[0] == "agg" and c_[1].get("agg") == "Closure":
+                            clos.append(c_[1]["closure"])
+                    x = strip_refs(x[2][0])
+                from_payload = x[0] == "field" and x[1][0] == "downcast" and x[1][2] == "Array" and strip_refs(x[1][1]) == ("arg", 1)
+                good = from_payload and len(clos) == 1 and [c for c in chain if c not in ("deref", "into_iter", "iter")] == ["collect", "map"]
+                elem_clos = facts.body(clos[0]) if good else None
+            ctx.check(bool(good) and sep == ",", K + ".array-join", key, "the string form of an array is %s (separator %r)" % (show_expr(r)[:80], sep), where=ts.where(), fn=ts.key, nontrivial=True, sample={"separator": sep})
+            if elem_clos is not None:
+                for ev in facts.variants(VALUE):
+                    bl, dec = elem_clos.specialize(lambda e, a, _v=ev: _v if (a == VALUE and e == ("arg", 2)) else None)
+                    with elem_clos.restricted(bl):
+                        rr = strip_refs(elem_clos.trace(0))
+                    if ev == "Null":
+                        a = strip_refs(rr[2][0]) if rr[0] == "call" and rr[2] else None
+                        got = const_value(a[1]) if a is not None and a[0] == "const" else ("" if rr[0] == "call" and rr[1] and rr[1]["path"] == "std::string::String::new" else None)
+                        ctx.check(got == "", K + ".array-element", "a null element contributes \"\" (%s)" % cfg, "a null array element contributes %r" % (got if got is not None else show_expr(rr)[:60]), where=elem_clos.where(), fn=elem_clos.key, nontrivial=True)
+                    else:
+                        good = rr[0] == "call" and rr[1] and rr[1].get("key") == ts.key and strip_refs(rr[2][0]) == ("arg", 2)
+                        ctx.check(good, K + ".array-element", "a %s element contributes its own string form (%s)" % (ev, cfg), "a %s element contributes %s" % (ev, show_expr(rr)[:80]), where=elem_clos.where(), fn=elem_clos.key, nontrivial=True)
